@@ -251,6 +251,7 @@ fn classify_panic(at: &str) -> String {
     if file.ends_with("src/http.rs") && at.contains("ToStrError") { "panic:http.rs:accept-encoding-to-str-unwrap".into() }
     else if at.contains("is_not_a_char_boundary") && at.contains("/traces/") { "panic:manager.rs:graph-traces-split-at".into() }
     else if file.contains("layout-rs") && at.contains("Sorting_an_empty_graph") { "panic:manager.rs:graph-empty-layout".into() }
+    else if file.contains("inetnum") && file.ends_with("asn.rs") && at.contains("char_boundary") { "panic:rib-request.rs:asn-from-str-on-non-ascii".into() }
     else { format!("panic:other:{}", at.split(' ').next().unwrap_or("?")) }
 }
 
@@ -275,10 +276,12 @@ fn deps_of(reg: &Registry, req: &Request<Body>, mrt_dir: &PathBuf) -> String {
         let mut pieces: Vec<&str> = v.split(',').take(8).collect();
         pieces.push(v);
         for piece in pieces {
-            let a = catch_unwind(|| inetnum::asn::Asn::from_str(piece).is_ok()).unwrap_or(false);
-            let c = catch_unwind(|| routecore::bgp::communities::HumanReadableCommunity::from_str(piece).is_ok()).unwrap_or(false);
-            d.insert(format!("a:{}", hex(piece.as_bytes())), (a as u8).to_string());
-            d.insert(format!("c:{}", hex(piece.as_bytes())), (c as u8).to_string());
+            // "1" Ok, "0" Err, "p" the dependency's parser panics itself
+            let tri = |r: std::thread::Result<bool>| match r { Ok(true) => "1", Ok(false) => "0", Err(_) => "p" }.to_string();
+            let a = tri(catch_unwind(|| inetnum::asn::Asn::from_str(piece).is_ok()));
+            let c = tri(catch_unwind(|| routecore::bgp::communities::HumanReadableCommunity::from_str(piece).is_ok()));
+            d.insert(format!("a:{}", hex(piece.as_bytes())), a);
+            d.insert(format!("c:{}", hex(piece.as_bytes())), c);
         }
         if p.name() == "file" {
             let verdict = match &canon_dir {
@@ -407,6 +410,8 @@ impl Gen {
                 ("sort=/a/b", true), ("format=dump", true), ("format=json", false), ("unknown=1", false), ("include[x]=lessSpecifics", true),
                 ("select%5Bas_path%5D=1", true), ("include=less%53pecifics", true), ("a+b=c+d", false), ("=", false), ("&", true), ("format", false),
                 ("select[as_path]=4294967296", false), ("select[as_path", false), ("details=communities,communities", true),
+                ("select[peer_as]=a%C3%A9", false), ("select[as_path]=1,a%C3%A9", false), ("discard[peer_as]=%E2%82%AC1", false), ("select[community]=a%C3%A9", false),
+                ("select[as_path]=x,a%C3%A9", false), ("discard[as_path]=AS1,%F0%9F%98%80", false), ("select[peer_as]=AS%C3%A9", false),
             ]);
             good &= ok;
             parts.push(p.to_string());
@@ -572,6 +577,9 @@ fn main() {
     let w3 = Case { method: "GET".into(), path: b"/status/graph".to_vec(), query: None, ae: None, ae2: None, expect: None, kind: "witness-graph-empty" };
     let o3 = run_case(&mut rec, &rt, &regs[1], &w3, &mrt_dir);
     rec.variant("graphempty", if matches!(o3, Some(Obs::Panic(_))) { "as-written" } else { "repaired" });
+    let w4 = Case { method: "GET".into(), path: b"/prefixes/10.0.0.0/8".to_vec(), query: Some(b"select[peer_as]=a%C3%A9".to_vec()), ae: None, ae2: None, expect: None, kind: "witness-dependency-panic" };
+    let o4 = run_case(&mut rec, &rt, &regs[1], &w4, &mrt_dir);
+    rec.variant("deppanic", if matches!(o4, Some(Obs::Panic(_))) { "as-written" } else { "repaired" });
     // corpus: hand-made realistic requests
     for (p, q, e) in [("/prefixes/1.2.3.0/24", None, 200u16), ("/prefixes/2804:1398:100::/48", None, 200), ("/prefixes/2804%3A1398%3A100%3A%3A/48", None, 200),
         ("/prefixes/1.2.3.0/24", Some("include=lessSpecifics,moreSpecifics&details=communities"), 200), ("/prefixes/1.0.0.0/7", Some("include=moreSpecifics"), 400),
